@@ -13,6 +13,12 @@ import OFV.Proofs.C11
 import OFV.Proofs.C11Num
 import OFV.Proofs.C11Layers
 import OFV.Proofs.C11Step
+import OFV.Proofs.C11Sweep
+import OFV.Proofs.C11Left
+import OFV.Proofs.C11Unit
+import OFV.Proofs.C11Diag
+import OFV.Proofs.C11RowUnit
+import OFV.Proofs.C11Exact
 
 namespace OFV.C11
 open OFV OFV.Model.C11
@@ -370,20 +376,8 @@ theorem column_step_zeroes_target (tol : Rat) (htol : 0 < tol) (M : Mat) (i j : 
     (hreal : realish tol (M.get i (j - 1)).conj (M.get i j).conj = true →
       (M.get i (j - 1)).conj.im = 0 ∧ (M.get i j).conj.im = 0)
     (hG : givensElems tol (M.get i (j - 1)).conj (M.get i j).conj true = .ok G) :
-    (rotateCols M G (j - 1) j).get i j = 0 := by
-  rw [rotateCols_get M G (j - 1) j i j hi (by omega) hrow (by omega)]
-  simp only [if_true]
-  unfold givensElems at hG
-  cases hC : cosSinPhase tol (M.get i (j - 1)).conj (M.get i j).conj with
-  | error e => simp [hC, bind, Except.bind] at hG
-  | ok t =>
-    obtain ⟨c, s, ph⟩ := t
-    simp only [hC, bind, Except.bind] at hG
-    injection hG with hG; subst hG
-    have hcsp := cosSinPhase_spec htol hexa hexb hC
-    have hz := assemble_zeroes hcsp true _ hreal
-    simp only [G2.Zeroes, if_true] at hz
-    exact conj_zero_relation _ _ _ _ (assemble_g10_real hcsp true _ hreal) hz
+    (rotateCols M G (j - 1) j).get i j = 0 :=
+  column_step_zeroes_target_aux tol htol M i j G hi hj hrow hexa hexb hreal hG
 
 /-- numeric zero persistence of one step: a row whose two mixed entries are both zero keeps them zero, and
 entries outside the two rotated columns are untouched (any `G`) -/
@@ -391,22 +385,255 @@ theorem column_step_keeps_zero_pairs (M : Mat) (G : G2) (i' j x : Nat) (hi : i' 
     (hrow : j < (M.getD i' []).length) :
     (M.get i' (j - 1) = 0 → M.get i' j = 0 →
       (rotateCols M G (j - 1) j).get i' (j - 1) = 0 ∧ (rotateCols M G (j - 1) j).get i' j = 0) ∧
-    (x ≠ j → x ≠ j - 1 → (rotateCols M G (j - 1) j).get i' x = M.get i' x) := by
-  constructor
-  · intro h1 h2
-    rw [rotateCols_get M G (j - 1) j i' (j - 1) hi (by omega) hrow (by omega),
-        rotateCols_get M G (j - 1) j i' j hi (by omega) hrow (by omega)]
-    have hne : ¬ (j - 1 = j) := by omega
-    simp only [hne, if_false, if_true, h1, h2, gq_mul_zero, gq_add_zero, and_self]
-  · intro hx1 hx2
-    rw [rotateCols_get M G (j - 1) j i' x hi (by omega) hrow (by omega)]
-    simp [hx1, hx2]
+    (x ≠ j → x ≠ j - 1 → (rotateCols M G (j - 1) j).get i' x = M.get i' x) :=
+  column_step_keeps_aux M G i' j x hi hj hrow
+
+/-- **The sweep of `givens_decomposition_square` annihilates the strict upper triangle.**
+For every `n × n` matrix `Q` (no unitarity needed for this part), `always_insert` or not, whenever the Model's
+sweep returns and the run stays in the exact regime (`SweepExact`: every entry compared with the tolerance
+along the run is exactly zero or not below it — the harness establishes this per input by re-running the Model
+with the tolerance scaled by 1000 and 1/1000), the final matrix `M'` — whose diagonal is the returned
+`diagonal` — has `M'[i, j] = 0` for all `i < j < n`.
+Proof: induction over the `2(n-1)-1` iterations with the invariant "every position scheduled so far is zero",
+using `colLayer_effect` (targets zeroed, disjoint pairs, zero pairs kept) and the schedule characterisation
+(`square_zero_persistence` is the index fact that makes the invariant inductive).
+Together with orthonormal rows this gives `M' = D` diagonal with `|D_ii| = 1` (upper-triangular unitary ⇒
+diagonal; NOT formalised), and `M' = Q G₁† ⋯ G_k†` by construction of `rotateCols` (NOT formalised). -/
+theorem square_sweep_annihilates_upper_triangle (tol : Rat) (htol : 0 < tol) (ai : Bool) (n : Nat) (Q : Mat)
+    (ls : List (List Rot)) (M' : Mat) (hQ : Rect Q n n)
+    (h : colSweep tol (squareLayer n) ai (List.range (squareDepth n)) Q = .ok (ls, M'))
+    (hex : SweepExact tol ai (squareLayer n) (List.range (squareDepth n)) Q) :
+    Rect M' n n ∧ ∀ i j, i < j → j < n → M'.get i j = 0 := by
+  rw [List.range_eq_range'] at h hex
+  obtain ⟨hR, hz⟩ := square_sweep_invariant tol htol ai n _ 0 Q ls M' h hex hQ (fun _ _ k' hk' => by omega)
+  refine ⟨hR, ?_⟩
+  intro i j hij hjn
+  obtain ⟨k, hk, hmem, _⟩ := square_schedule_covers n i j hij hjn
+  exact hz i j k (by omega) hmem
+
+/-- **Second stage of `givens_decomposition` (`m < n`).**  If the matrix handed to the sweep has the corner
+`j - i > n - m` zero (what the left-unitary stage is for; hypothesis here) then, in the exact regime, after the
+`n - 1` iterations every entry `(i, j)` with `i < m`, `i < j < n` is zero: the first `m` columns hold the
+returned diagonal, the strict upper part — including all columns `≥ m` above the diagonal band — vanishes. -/
+theorem givens_sweep_annihilates_upper_part (tol : Rat) (htol : 0 < tol) (ai : Bool) (m n : Nat) (hm : m < n)
+    (M : Mat) (ls : List (List Rot)) (M' : Mat) (hM : Rect M m n)
+    (hcorner : ∀ i j, (i, j) ∈ givensLeft m n → M.get i j = 0)
+    (h : colSweep tol (givensLayer m n) ai (List.range (givensDepth n)) M = .ok (ls, M'))
+    (hex : SweepExact tol ai (givensLayer m n) (List.range (givensDepth n)) M) :
+    Rect M' m n ∧ ∀ i j, i < m → i < j → j < n → M'.get i j = 0 := by
+  rw [List.range_eq_range'] at h hex
+  obtain ⟨hR, hc, hz⟩ := givens_sweep_invariant tol htol ai m n hm _ 0 M ls M' h hex hM
+    (by unfold givensDepth; omega) hcorner (fun _ _ k' hk' => by omega)
+  refine ⟨hR, ?_⟩
+  intro i j hi hij hjn
+  rcases givens_upper_triangle_covered m n i j hm hi hij hjn with ⟨hl, _⟩ | ⟨_, k, hk, hmem⟩
+  · exact hc i j hl
+  · exact hz i j k (by omega) hmem
+
+/-- the left-unitary stage of `givens_decomposition` (rotations of rows `l, l+1`, column by column from the
+right) zeroes the whole corner `j - i > n - m`, in the exact regime (`LeftExact` follows the run) -/
+theorem givens_left_stage_zeroes_corner (tol : Rat) (htol : 0 < tol) (m n : Nat) (hmn : m ≤ n) (Q V M V' : Mat)
+    (h : leftStage tol (givensLeft m n) Q V = .ok (M, V')) (hex : LeftExact tol (givensLeft m n) Q)
+    (hQ : Rect Q m n) : Rect M m n ∧ ∀ i j, (i, j) ∈ givensLeft m n → M.get i j = 0 :=
+  leftStage_zeroes_corner tol htol m n hmn Q V M V' h hex hQ
+
+/-- **`givens_decomposition`, `m < n`, both stages** (the Model function the driver runs is exactly their
+composition, see `givens_decomposition_is_two_stages`): in the exact regime the final matrix has every
+entry above the diagonal equal to zero, i.e. it is `(L | 0)` with `L` lower triangular `m × m`; with
+orthonormal rows `L` is then diagonal of unit modulus (that last linear-algebra step is NOT formalised). -/
+theorem givens_decomposition_annihilates_upper_part (tol : Rat) (htol : 0 < tol) (ai : Bool) (m n : Nat)
+    (hm : m < n) (Q V0 M V : Mat) (ls : List (List Rot)) (M' : Mat) (hQ : Rect Q m n)
+    (h1 : leftStage tol (givensLeft m n) Q V0 = .ok (M, V)) (hex1 : LeftExact tol (givensLeft m n) Q)
+    (h2 : colSweep tol (givensLayer m n) ai (List.range (givensDepth n)) M = .ok (ls, M'))
+    (hex2 : SweepExact tol ai (givensLayer m n) (List.range (givensDepth n)) M) :
+    Rect M' m n ∧ ∀ i j, i < m → i < j → j < n → M'.get i j = 0 := by
+  obtain ⟨hR, hc⟩ := leftStage_zeroes_corner tol htol m n (by omega) Q V0 M V h1 hex1 hQ
+  exact givens_sweep_annihilates_upper_part tol htol ai m n hm M ls M' hR hc h2 hex2
+
+/-- **`givens_decomposition` brings every `m × n` isometry (`m < n`) to `(D | 0)` (exact regime).**
+Rows of `Q` orthonormal; left-unitary stage (row rotations by unitary 2×2 matrices) followed by the column sweep
+(column rotations).  Then the final matrix `M' = V Q U†` has `M'[i,j] = 0` for all `i ≠ j` (`i < m`, `j < n`) and
+`|M'[j,j]| = 1` for `j < m` — the statement `V Q U† = D` of the docstring with a unit-modulus diagonal.
+Not formalised: that the returned `left_unitary` / rotation list multiply out to `V` / `U` (bookkeeping of the same
+elementary updates, checked numerically by the reconstruction oracle). -/
+theorem givens_decomposition_diagonalises (tol : Rat) (htol : 0 < tol) (ai : Bool) (m n : Nat)
+    (hm : m < n) (Q V0 M V : Mat) (ls : List (List Rot)) (M' : Mat) (hQ : Rect Q m n)
+    (horth : RowsOrthonormal Q m n)
+    (h1 : leftStage tol (givensLeft m n) Q V0 = .ok (M, V)) (hex1 : LeftExact tol (givensLeft m n) Q)
+    (h2 : colSweep tol (givensLayer m n) ai (List.range (givensDepth n)) M = .ok (ls, M'))
+    (hex2 : SweepExact tol ai (givensLayer m n) (List.range (givensDepth n)) M) :
+    (∀ i j, i < m → j < n → i ≠ j → M'.get i j = 0) ∧
+    (∀ j, j < m → (M'.get j j).re * (M'.get j j).re + (M'.get j j).im * (M'.get j j).im = 1) := by
+  obtain ⟨hR, hc⟩ := leftStage_zeroes_corner tol htol m n (by omega) Q V0 M V h1 hex1 hQ
+  obtain ⟨_, hup⟩ := givens_sweep_annihilates_upper_part tol htol ai m n hm M ls M' hR hc h2 hex2
+  have hleftval : ∀ p ∈ givensLeft m n, p.1 + 1 < m := by
+    intro p hp
+    obtain ⟨l, k⟩ := p
+    have := (mem_givensLeft m n l k (by omega)).1 hp
+    simp only; omega
+  have ho1 := leftStage_orthonormal tol htol m n _ Q V0 M V h1 hex1 hQ hleftval horth
+  have hval : ∀ k, ∀ p ∈ givensLayer m n k, p.1 < m ∧ 1 ≤ p.2 ∧ p.2 < n := by
+    intro k p hp
+    obtain ⟨i, j⟩ := p
+    -- `givensLayer` lists only valid positions for every k (by the three cases of its definition)
+    by_cases hk : k < n - 1
+    · rw [mem_givensLayer m n k i j hm hk] at hp; simp only; omega
+    · exfalso
+      unfold givensLayer at hp
+      simp only at hp
+      split at hp
+      · rw [mem_zipUp] at hp; obtain ⟨t, ht, _, _⟩ := hp; omega
+      · split at hp
+        · rw [mem_zipUp] at hp; obtain ⟨t, ht, _, _⟩ := hp; omega
+        · split at hp
+          · rw [mem_zipUp] at hp; obtain ⟨t, ht, _, _⟩ := hp; omega
+          · rw [mem_zipUp] at hp; obtain ⟨t, ht, _, _⟩ := hp; omega
+  obtain ⟨_, hg⟩ := colSweep_gram tol htol ai m n (givensLayer m n) hval _ M ls M' h2 hex2 hR
+  have ho' := ho1.of_sameGram hg
+  have hd := diagonal_of_triangular_orthonormal M' m n (by omega) hup ho'
+  refine ⟨?_, fun j hj => (hd j hj).2⟩
+  intro i j hi hj hij
+  by_cases hjm : j < m
+  · exact (hd j hjm).1 i hi hij
+  · exact hup i j hi (by omega) hj
+
+/-- `decompGivens` (what the driver executes for `givens_decomposition`) is the composition of the two stages
+and returns the diagonal of the final matrix -/
+theorem givens_decomposition_is_two_stages (tol : Rat) (Q : Mat) (n : Nat) (ai : Bool) (out : GivensOut)
+    (hm : Q.length < n) (h : decompGivens tol Q n ai = .ok out) :
+    ∃ M V ls M', leftStage tol (givensLeft Q.length n) Q (Mat.identity Q.length) = .ok (M, V) ∧
+      colSweep tol (givensLayer Q.length n) ai (List.range (givensDepth n)) M = .ok (ls, M') ∧
+      out.layers = ls ∧ out.left = V ∧ out.diag = diagOf M' Q.length 0 := by
+  unfold decompGivens at h
+  simp only at h
+  rw [if_neg (by omega)] at h
+  cases hL : leftStage tol (givensLeft Q.length n) Q (Mat.identity Q.length) with
+  | error e => simp [hL, bind, Except.bind] at h
+  | ok t =>
+    obtain ⟨M, V⟩ := t
+    simp only [hL, bind, Except.bind] at h
+    rw [if_neg (by omega)] at h
+    cases hS : colSweep tol (givensLayer Q.length n) ai (List.range (givensDepth n)) M with
+    | error e => simp [hS] at h
+    | ok t2 =>
+      obtain ⟨ls, M'⟩ := t2
+      simp only [hS] at h
+      injection h with h; subst h
+      exact ⟨M, V, ls, M', rfl, hS, rfl, rfl, rfl⟩
+
+-- non-vacuity: a 2 × 3 isometry whose left stage performs one row rotation
+example : (leftStage (1/100000000) (givensLeft 2 3) [[0, ⟨3/5, 0⟩, ⟨4/5, 0⟩], [0, ⟨-4/5, 0⟩, ⟨3/5, 0⟩]]
+    (Mat.identity 2)).toOption.map (fun r => r.1) = some [[0, 1, 0], [0, 0, 1]] := by decide +kernel
+example : StepExactL (1/100000000) [[0, ⟨3/5, 0⟩, ⟨4/5, 0⟩], [0, ⟨-4/5, 0⟩, ⟨3/5, 0⟩]] 0 2 := by
+  unfold StepExactL; decide +kernel
+
+-- non-vacuity: a 1 × 2 isometry (3/5, 4/5): the sweep returns (1, 0); the corner is empty
+example : (colSweep (1/100000000) (givensLayer 1 2) false (List.range (givensDepth 2))
+    [[⟨3/5, 0⟩, ⟨4/5, 0⟩]]).toOption.map (fun r => r.2) = some [[1, 0]] ∧ givensLeft 1 2 = [] := by
+  decide +kernel
+
+/-- **`givens_decomposition_square` diagonalises every unitary (exact regime).**
+Let `Q` be `n × n` with orthonormal rows.  Whenever the Model's sweep returns and the run is in the exact regime,
+the final matrix `M' = Q G₁† ⋯ G_k†` (each step is `givens_rotate(.., 'col')` with the matrix whose parameters
+`(θ, φ)` are recorded — `givens_matrix_elements_sound` shows they reproduce it) is **diagonal with unit-modulus
+diagonal**: `M'[i,j] = 0` for `i ≠ j`, `|M'[j,j]|² = 1`, and all inner products of rows are those of `Q`.
+The returned `diagonal` is `diag M'`, so `Q = D U` with `U = G_k ⋯ G₁` — the statement of the docstring.
+(What is not formalised is only the bookkeeping that composing the recorded rotations gives the matrix product `U`;
+the reconstruction oracle checks that product numerically on the real code.) -/
+theorem square_decomposition_diagonalises (tol : Rat) (htol : 0 < tol) (ai : Bool) (n : Nat) (Q : Mat)
+    (ls : List (List Rot)) (M' : Mat) (hQ : Rect Q n n) (horth : RowsOrthonormal Q n n)
+    (h : colSweep tol (squareLayer n) ai (List.range (squareDepth n)) Q = .ok (ls, M'))
+    (hex : SweepExact tol ai (squareLayer n) (List.range (squareDepth n)) Q) :
+    (∀ i j, i < n → j < n → i ≠ j → M'.get i j = 0) ∧
+    (∀ j, j < n → (M'.get j j).re * (M'.get j j).re + (M'.get j j).im * (M'.get j j).im = 1) ∧
+    RowsOrthonormal M' n n := by
+  obtain ⟨_, hup⟩ := square_sweep_annihilates_upper_triangle tol htol ai n Q ls M' hQ h hex
+  have hval : ∀ k, ∀ p ∈ squareLayer n k, p.1 < n ∧ 1 ≤ p.2 ∧ p.2 < n := by
+    intro k p hp
+    obtain ⟨i, j⟩ := p
+    rw [mem_squareLayer] at hp
+    simp only; omega
+  obtain ⟨_, hg⟩ := colSweep_gram tol htol ai n n (squareLayer n) hval _ Q ls M' h hex hQ
+  have ho' := horth.of_sameGram hg
+  have hd := diagonal_of_triangular_orthonormal M' n n (Nat.le_refl n) (fun i j _ hij hj => hup i j hij hj) ho'
+  exact ⟨fun i j hi hj hij => (hd j hj).1 i hi hij, fun j hj => (hd j hj).2, ho'⟩
+
+-- non-vacuity: the 3-4-5 rotation has orthonormal rows
+example : RowsOrthonormal [[⟨3/5, 0⟩, ⟨4/5, 0⟩], [⟨-4/5, 0⟩, ⟨3/5, 0⟩]] 2 2 := by
+  intro i i' hi hi'
+  have h1 : i = 0 ∨ i = 1 := by omega
+  have h2 : i' = 0 ∨ i' = 1 := by omega
+  rcases h1 with rfl | rfl <;> rcases h2 with rfl | rfl <;> decide +kernel
+
+-- non-vacuity: on the 3-4-5 rotation the sweep returns and the exact-regime conditions of its only step hold
+example : (colSweep (1/100000000) (squareLayer 2) false (List.range (squareDepth 2))
+    [[⟨3/5, 0⟩, ⟨4/5, 0⟩], [⟨-4/5, 0⟩, ⟨3/5, 0⟩]]).toOption.map (fun r => r.2) =
+    some [[1, 0], [0, 1]] := by decide +kernel
+example : Rect [[⟨3/5, 0⟩, ⟨4/5, 0⟩], [⟨-4/5, 0⟩, ⟨3/5, 0⟩]] 2 2 := by
+  refine ⟨rfl, ?_⟩; intro row h; simp at h; rcases h with rfl | rfl <;> rfl
+
+-- non-vacuity: the exact-regime conditions of that step hold (3/5, 4/5 are far above the tolerance, exactly real)
+example : StepExact (1/100000000) [[⟨3/5, 0⟩, ⟨4/5, 0⟩], [⟨-4/5, 0⟩, ⟨3/5, 0⟩]] 0 1 := by
+  unfold StepExact; decide +kernel
 
 -- non-vacuity: the first step on a 3-4-5 rotation
 example : (givensElems (1/100000000) ((Mat.get [[⟨3/5, 0⟩, ⟨4/5, 0⟩], [⟨-4/5, 0⟩, ⟨3/5, 0⟩]] 0 0).conj)
     ((Mat.get [[⟨3/5, 0⟩, ⟨4/5, 0⟩], [⟨-4/5, 0⟩, ⟨3/5, 0⟩]] 0 1).conj) true).toOption.map
     (fun G => (rotateCols [[⟨3/5, 0⟩, ⟨4/5, 0⟩], [⟨-4/5, 0⟩, ⟨3/5, 0⟩]] G 0 1).get 0 1) = some 0 := by
   decide +kernel
+
+/-! ## The reconstruction theorems with executable hypotheses
+
+`squareHypothesesB`, `givensHypothesesB` and `orthonormalB` are Boolean functions of the input which the driver
+evaluates for every structured input of the correspondence run (op `c11.hypotheses`); whenever they answer `true`
+the theorems below apply to that very input, unconditionally. -/
+
+/-- if the probes accept `Q` then `decompSquare` (what the driver runs) returns a diagonal of unit modulus and the
+final matrix is that diagonal -/
+theorem square_decomposition_checked (tol : Rat) (htol : 0 < tol) (Q : Mat) (ai : Bool)
+    (hB : squareHypothesesB tol Q ai = true) (hO : orthonormalB Q Q.length Q.length = true)
+    (ls : List (List Rot)) (d : List GQ) (h : decompSquare tol Q ai = .ok (ls, d)) :
+    ∃ M', colSweep tol (squareLayer Q.length) ai (List.range (squareDepth Q.length)) Q = .ok (ls, M') ∧
+      d = diagOf M' Q.length 0 ∧
+      (∀ i j, i < Q.length → j < Q.length → i ≠ j → M'.get i j = 0) ∧
+      (∀ j, j < Q.length → (M'.get j j).re * (M'.get j j).re + (M'.get j j).im * (M'.get j j).im = 1) := by
+  unfold squareHypothesesB at hB
+  simp only [Bool.and_eq_true] at hB
+  obtain ⟨hrect, hex⟩ := hB
+  unfold decompSquare at h
+  cases hS : colSweep tol (squareLayer Q.length) ai (List.range (squareDepth Q.length)) Q with
+  | error e => simp [hS, bind, Except.bind] at h
+  | ok t =>
+    obtain ⟨ls', M'⟩ := t
+    simp only [hS, bind, Except.bind] at h
+    injection h with h; injection h with h1 h2; subst h1; subst h2
+    obtain ⟨hz, hn, _⟩ := square_decomposition_diagonalises tol htol ai Q.length Q ls' M' (rect_of_all Q _ hrect)
+      (orthonormalB_sound Q _ _ hO) hS (sweepExactB_sound tol ai _ _ Q hex)
+    exact ⟨M', rfl, rfl, hz, hn⟩
+
+/-- the same for `decompGivens`, `m < n` -/
+theorem givens_decomposition_checked (tol : Rat) (htol : 0 < tol) (Q : Mat) (n : Nat) (ai : Bool)
+    (hB : givensHypothesesB tol Q n ai = true) (hO : orthonormalB Q Q.length n = true)
+    (out : GivensOut) (h : decompGivens tol Q n ai = .ok out) :
+    ∃ M', out.diag = diagOf M' Q.length 0 ∧
+      (∀ i j, i < Q.length → j < n → i ≠ j → M'.get i j = 0) ∧
+      (∀ j, j < Q.length → (M'.get j j).re * (M'.get j j).re + (M'.get j j).im * (M'.get j j).im = 1) := by
+  unfold givensHypothesesB at hB
+  simp only [Bool.and_eq_true, decide_eq_true_eq] at hB
+  obtain ⟨⟨⟨hm, hrect⟩, hexL⟩, hrest⟩ := hB
+  obtain ⟨M, V, ls, M', hL, hS, _, _, hdiag⟩ := givens_decomposition_is_two_stages tol Q n ai out hm h
+  rw [hL] at hrest
+  simp only at hrest
+  obtain ⟨hz, hn⟩ := givens_decomposition_diagonalises tol htol ai Q.length n hm Q _ M V ls M'
+    (rect_of_all Q _ hrect) (orthonormalB_sound Q _ _ hO) hL (leftExactB_sound tol _ Q hexL) hS
+    (sweepExactB_sound tol ai _ _ M hrest)
+  exact ⟨M', hdiag, hz, hn⟩
+
+-- non-vacuity: both probes accept the 3-4-5 rotation and a 2 × 3 isometry
+example : squareHypothesesB (1/100000000) [[⟨3/5, 0⟩, ⟨4/5, 0⟩], [⟨-4/5, 0⟩, ⟨3/5, 0⟩]] false = true ∧
+    orthonormalB [[⟨3/5, 0⟩, ⟨4/5, 0⟩], [⟨-4/5, 0⟩, ⟨3/5, 0⟩]] 2 2 = true := by decide +kernel
+example : givensHypothesesB (1/100000000) [[0, ⟨3/5, 0⟩, ⟨4/5, 0⟩], [0, ⟨-4/5, 0⟩, ⟨3/5, 0⟩]] 3 false = true ∧
+    orthonormalB [[0, ⟨3/5, 0⟩, ⟨4/5, 0⟩], [0, ⟨-4/5, 0⟩, ⟨3/5, 0⟩]] 2 3 = true := by decide +kernel
 
 /-! ## Known finding F11 -/
 
